@@ -13,4 +13,5 @@ LEVEL_NOTE = ('Strings are opaque: s.split(sep) is a list of uninterpreted parts
               'that each public method gets both forms is checked only by the existing unit test; MessageDispatcher.DispatchMethodCall itself is C01.')
 ASSUMPTIONS = ['python str.split / int / lower semantics as uninterpreted functions with the stated axioms', 'inspect / type() class generation not modelled']
 TRUSTED = []
-BOUNDED = []
+BOUNDED = [dict(name='generated-class-has-both-forms-of-every-user-method', replay_unit='ClientProxyBuilder._BuildServiceProxy.ProxyMethod._ProxyMethod',
+                bound='one interface with own, underscore-prefixed, inherited and timeout-named methods; 5 argument shapes; both forms; real _BuildServiceProxy with a recording dispatcher')]
